@@ -89,6 +89,7 @@ func (e *Engine) runPath(fn *ssa.Function, args []Value) (end pathEnd) {
 		}
 	}()
 	e.call(fn, args, nil)
+	e.flushAsserts()
 	return pathEnd{kind: endDone}
 }
 
@@ -214,6 +215,19 @@ func (e *Engine) RunHarness(cfg *HarnessCfg, nValidate int) (res *HarnessResult)
 		args := e.paramValues(fn, cfg.Params)
 		nv := len(e.violations)
 		end := e.runPath(fn, args)
+		if end.kind == endInconclusive && len(e.p.pending) > 0 {
+			// obligations recorded before the inconclusive point are still decided
+			func() {
+				defer func() {
+					if r := recover(); r != nil {
+						if _, ok := r.(pathEnd); !ok {
+							panic(r)
+						}
+					}
+				}()
+				e.flushAsserts()
+			}()
+		}
 		e.stats.Paths++
 		e.stats.Steps += e.p.steps
 		if e.p.steps > e.stats.MaxPathSteps {
@@ -274,6 +288,11 @@ func (e *Engine) RunHarness(cfg *HarnessCfg, nValidate int) (res *HarnessResult)
 		if e.stats.Paths >= cfg.MaxPaths {
 			complete = false
 			e.stats.Inconclusive["path limit reached"]++
+			break
+		}
+		if cfg.MaxWallS > 0 && time.Since(t0).Seconds() > cfg.MaxWallS {
+			complete = false
+			e.stats.Inconclusive["instance time limit reached"]++
 			break
 		}
 	}
